@@ -172,6 +172,24 @@ def divLoop (z : List F) : Nat → Nat → MVPoly F → List (MVPoly F)
 def divideAtPoint (nv : Nat) (p : MVPoly F) (z : List F) : List (MVPoly F) :=
   if isZeroMV p then List.replicate nv [] else divLoop z nv 0 p
 
+/-- does the term contain `X_i` (the `Ok(idx)` arm of the `binary_search_by`; constant terms are
+skipped before) -/
+def termReads (i : Nat) (ct : F × Term) : Bool :=
+  !Term.isConstant ct.2 && (Term.find? i ct.2).isSome
+
+/-- the index expressions `point[i]` of `divide_at_point` stay in range: the `Ok(idx)` arm reads
+`point[i]`, so a dividend that still contains `X_i` at a step `i ≥ point.len()` is a panic
+(`divLoop` itself reads a missing coordinate as `0`) -/
+def divIndexOk (z : List F) : Nat → Nat → MVPoly F → Bool
+  | 0, _, _ => true
+  | n + 1, i, cur =>
+    (decide (i < z.length) || !(cur.any (termReads i)))
+      && divIndexOk z n (i + 1) (fromCoeffs (divTerms i (getD' z i 0) cur).2)
+
+/-- `divide_at_point(p, point)` does not index `point` out of range (`nv = p.num_vars()`) -/
+def divideOk (nv : Nat) (p : MVPoly F) (z : List F) : Bool :=
+  isZeroMV p || divIndexOk z nv 0 p
+
 /-! ### commit -/
 
 /-- the MSM over the bases looked up term by term (`….get(term).unwrap()`: a missing term is a
@@ -312,8 +330,9 @@ def resizeTo (n : Nat) (ws : List (MVPoly F)) : List (MVPoly F) :=
 /-- the part of `open` after the challenge combination; `nvp`, `nvr` are `p.num_vars()` and
 `r.blinding_polynomial.num_vars()` of the combined polynomials.  Both quotient lists are resized to
 one entry per variable of the key (a polynomial declared over fewer variables has zero quotients
-for the remaining ones). -/
-def openCombined (ck : CK F) (nvp nvr : Nat) (p r : MVPoly F) (z : List F) :
+for the remaining ones).  A point with too few coordinates for the variables that actually occur is
+an index panic. -/
+def openCore (ck : CK F) (nvp nvr : Nat) (p r : MVPoly F) (z : List F) :
     Except Err (Proof F) :=
   match msmAll (lookG ck.powersOfG) (resizeTo ck.numVars (divideAtPoint nvp p z)) with
   | .error e => .error e
@@ -326,6 +345,14 @@ def openCombined (ck : CK F) (nvp nvr : Nat) (p r : MVPoly F) (z : List F) :
       | .ok w' =>
         if z.length < nvr then .error .abort   -- `evaluate` asserts `point.len() >= num_vars`
         else .ok ⟨w', some (evalMV r z)⟩
+
+/-- `open` after the challenge combination: the two `divide_at_point` calls must not index the
+point out of range (the second one is made only for a hiding state), then `openCore`. -/
+def openCombined (ck : CK F) (nvp nvr : Nat) (p r : MVPoly F) (z : List F) :
+    Except Err (Proof F) :=
+  if !divideOk nvp p z then .error .abort
+  else if !isZeroMV r && !divideOk nvr r z then .error .abort
+  else openCore ck nvp nvr p r z
 
 /-- `MarlinPST13::open` -/
 def «open» (ck : CK F) (nvp nvr : Nat) (ps : List (MVPoly F)) (z : List F) (rs : List (MVPoly F))
